@@ -2,6 +2,15 @@
 """Regenerates MANIFEST.json from the table below (keeps it valid at all times)."""
 import json, sys
 CHECKS = {
+ "C09": dict(level="exploration", design="4/C09",
+   text="The single-relation table (4 sides x 2 orthogonal alignments x 4 x 4 reflections x 3 separation kinds = 384) exhaustively; seeded proptest search over placement programs of 1-25 instances (chains and trees, relabelled and shuffled, each placed in two listing orders), cyclic programs (must be errors) and absolute array instances (count 1-6, pitch in x/y, both reflections, nesting depth <= 3). Oracle: bounding-box model of the relation computed from (location, cell size, reflections), required to equal Instance::boundbox(); reference expansion for arrays.",
+   note="Non-orthogonal side/alignment pairs, Center/Ports alignment, placement relative to arrays/groups, relative array placement are unimplemented in the code and outside the quantifier.",
+   technique="exhaustive table + property-based testing against a reference placement model; order-independence as a metamorphic relation"),
+ "C19": dict(level="exploration", design="4/C19",
+   text="Seeded proptest search over placed gridded-layout libraries (cell DAGs in shuffled order, stepped outlines with ties, 0-5 metals, instances with all four reflection combinations, arbitrary assignments and cuts, port-less abstracts): export lists cells after the cells they instantiate, import succeeds and every field is equal. The exported message with one of 16 faults (each mandatory sub-message removed, undefined/external reference, relative placement, non-monotone outline, negative track) must be an error, never a crash.",
+   note="Abstract ports are not generated (import is todo!() and outside the statement's field list).",
+   technique="property-based testing: export/import round-trip oracle + fault injection into the exported message"),
+
  "C14": dict(level="exploration", design="4/C14",
    text="Seeded proptest search in both directions. (->) raw libraries incl. abstract views, cells in shuffled listing order, eight instance orientations, all shape kinds, nets, annotations: to_proto must list every cell after the cells it instantiates, from_proto must succeed and name, units, views, shapes (multisets per layer/purpose number), instances (name, target, location, reflection, rotation), annotations, ports and blockages must be equal. (<-) generated protobuf messages in the supported subset with a matching Layers table: from_proto then to_proto must equal the message (port/blockage layer lists as multisets).",
    note="Units::Pico is outside the schema; order of map-derived lists is C20's subject.",
